@@ -25,9 +25,11 @@ def gen(out):
         raise Missing(f"{arch}: archive_log path format")
     pre, width, suf = m.group(1), int(m.group(2)), m.group(3)
 
-    # the directory scans of archiver and cleaner: strip_prefix / strip_suffix / parse::<u64> / id < keep_from_log_id
+    # the directory scans of archiver and cleaner: strip_prefix / strip_suffix / parse::<u64> / id < keep_from_log_id,
+    # optionally restricted to the canonical name of the id (file_name == format!("wal-{:05}.log", id))
     scan = re.compile(r'\.strip_prefix\("([^"]*)"\)\s*\.and_then\(\|s\|\s*s\.strip_suffix\("([^"]*)"\)\)\s*\{\s*'
-                      r'if let Ok\(id\) = num\.parse::<(\w+)>\(\)\s*\{\s*if id (<|<=) keep_from_log_id', re.S)
+                      r'if let Ok\(id\) = num\.parse::<(\w+)>\(\)\s*\{\s*(?://[^\n]*\n\s*)*if id (<|<=) keep_from_log_id'
+                      r'(?:\s*&&\s*file_name == format!\("([^"{]*)\{:0(\d+)\}([^"]*)",\s*id\))?\s*\{', re.S)
     scans = []
     for rel, src in ((arch, a), (clean, c)):
         m2 = scan.search(src)
@@ -36,11 +38,14 @@ def gen(out):
         scans.append(m2.groups())
     if scans[0] != scans[1]:
         raise Missing(f"archiver and cleaner select different files: {scans}")
-    spre, ssuf, ty, op = scans[0]
+    spre, ssuf, ty, op, cpre, cwidth, csuf = scans[0]
     if ty != "u64":
         raise Missing(f"{arch}: log ids parsed as {ty}, the model assumes u64")
     if (spre, ssuf) != (pre, suf):
         raise Missing(f"{arch}: scan pattern {spre!r}/{ssuf!r} differs from archive_log's file name {pre!r}/{suf!r}")
+    if cpre is not None and (cpre, int(cwidth), csuf) != (pre, width, suf):
+        raise Missing(f"{arch}: the scans compare the file name with {cpre!r}{{:0{cwidth}}}{csuf!r}, archive_log opens {pre!r}{{:0{width}}}{suf!r}")
+    out.append(f"Definition walarch_scan_canonical_only : bool := {'true' if cpre is not None else 'false'}.")
     out.append(f"Definition walarch_log_prefix : list N := {coq_bytes(pre)}.")
     out.append(f"Definition walarch_log_suffix : list N := {coq_bytes(suf)}.")
     out.append(f"Definition walarch_pad_width : nat := {width}%nat.")
@@ -58,11 +63,46 @@ def gen(out):
     out.append(f"Definition walarch_arch_sep2 : list N := {coq_bytes(s2)}.")
     out.append(f"Definition walarch_arch_suffix : list N := {coq_bytes(s3)}.")
 
-    # recovery lists files whose extension equals "zst" and sorts the paths
-    m = re.search(r'fn list_archives.*?\.map\(\|ext\| ext == "([^"]+)"\).*?archives\.sort\(\);', r, re.S)
+    # recovery lists files whose extension equals "zst" and sorts the paths: as strings, or by the numeric
+    # (id, start, end) parsed from "wal-{id}-{start}-{end}.wal.zst" (unparsable names last), ties by path
+    m = re.search(r'fn list_archives.*?\.map\(\|ext\| ext == "([^"]+)"\)', r, re.S)
     if not m:
-        raise Missing(f"{rec}: list_archives extension filter + sort")
+        raise Missing(f"{rec}: list_archives extension filter")
     out.append(f"Definition walarch_ext : list N := {coq_bytes('.' + m.group(1))}.")
+    body = r[m.end():]
+    body = body[:body.index("Ok(archives)")]
+    if re.search(r'archives\.sort\(\);', body):
+        numeric = False
+        kp, ks, ksep = p0, s3, s1
+    else:
+        if not re.search(r'archives\.sort_by\(\|a, b\| \{\s*Self::archive_sort_key\(a\)\s*\.cmp\(&Self::archive_sort_key\(b\)\)\s*'
+                         r'\.then_with\(\|\| a\.cmp\(b\)\)\s*\}\);', body):
+            raise Missing(f"{rec}: list_archives sort (plain sort() or sort_by archive_sort_key then path)")
+        k = re.search(r'fn archive_sort_key\(path: &Path\) -> \(u64, u64, u64\) \{.*?\.strip_prefix\("([^"]*)"\)\)\s*'
+                      r'\.and_then\(\|n\| n\.strip_suffix\("([^"]*)"\)\)\s*\.and_then\(\|n\| \{\s*'
+                      r"let mut it = n\.split\('(.)'\)\.map\(\|x\| x\.parse::<u64>\(\)\.ok\(\)\);\s*"
+                      r'match \(it\.next\(\), it\.next\(\), it\.next\(\), it\.next\(\)\) \{\s*'
+                      r'\(Some\(Some\(id\)\), Some\(Some\(start\)\), Some\(Some\(end\)\), None\) => Some\(\(id, start, end\)\),\s*'
+                      r'_ => None,\s*\}\s*\}\);\s*parsed\.unwrap_or\(\(u64::MAX, u64::MAX, u64::MAX\)\)', r, re.S)
+        if not k:
+            raise Missing(f"{rec}: archive_sort_key (prefix, suffix, split, three u64 parts, u64::MAX default)")
+        numeric = True
+        kp, ks, ksep = k.groups()
+    out.append(f"Definition walarch_recovery_numeric_sort : bool := {'true' if numeric else 'false'}.")
+    out.append(f"Definition walarch_key_prefix : list N := {coq_bytes(kp)}.")
+    out.append(f"Definition walarch_key_suffix : list N := {coq_bytes(ks)}.")
+    out.append(f"Definition walarch_key_sep : N := {ord(ksep)}%N.")
+
+    # which WAL directory the cleaner's archiver reads: the configured one, or the cleaner's own
+    if re.search(r'let archiver = WalArchiver::new\(self\.shard_id\)\.with_wal_dir\(self\.wal_dir\.clone\(\)\);', c):
+        if not re.search(r'pub fn with_wal_dir\(mut self, wal_dir: PathBuf\) -> Self \{\s*self\.wal_dir = wal_dir;\s*self\s*\}', a):
+            raise Missing(f"{arch}: WalArchiver::with_wal_dir replacing self.wal_dir")
+        own = True
+    elif re.search(r'let archiver = WalArchiver::new\(self\.shard_id\);', c):
+        own = False
+    else:
+        raise Missing(f"{clean}: construction of the archiver in cleanup_up_to")
+    out.append(f"Definition walarch_cleaner_archives_own_dir : bool := {'true' if own else 'false'}.")
 
     # conservative mode: any archive failure returns before the deletion pass
     m = re.search(r'let failure_count = archive_results\.iter\(\)\.filter\(\|r\| r\.is_err\(\)\)\.count\(\);\s*'
